@@ -51,6 +51,9 @@ def run(ck):
         ({"A": [{"f": "a", "g": "b"}, {"f": "c", "g": "d"}], "B": {"h": "x"}, "condition": "A and B"}, [{"f": "c", "g": "d", "h": "x"}, {"f": "c"}, {}]),
         ({"A": {"n": {"f": "a"}}, "B": {"n": {"g": "b"}}, "condition": "A and B"}, [{"n": {"f": "a", "g": "b"}}, {"n": [{"f": "a"}, {"g": "b"}]}, {}]),
         ({"A": {"f": ["foo", "bar"], "g": ["ifoo", "i*bar"]}, "condition": "A"}, [{"f": "foo", "g": "FOO"}, {"f": "bar", "g": "xBAR"}, {"f": "foo"}]),
+        ({"A": {"f": ["i?^foo", "i?bar$", "baz"]}, "condition": "A"}, [{"f": "FOOD"}, {"f": "crowBar"}, {"f": "baz"}, {"f": "x"}, {}]),
+        ({"A": {"f": "i?^foo"}, "B": {"f": "i?bar$"}, "C": {"f": "?baz"}, "condition": "A or B or not C"}, [{"f": "FOOD"}, {"f": "crowBar"}, {"f": "bazz"}, {}]),
+        ({"A": {"f": ["?^foo", "?bar$", "ibaz", "iqux"]}, "condition": "not A"}, [{"f": "food"}, {"f": "BAZ"}, {"f": "Qux"}, {"f": "x"}, {}]),
     ]
     for det, docs in forced:
         cases.append({"k": "rule", "id": ck.new_id(), "rule": rule_text(det), "docs": [D(d) for d in docs], "sw": ALL_SW,
